@@ -393,7 +393,7 @@ func checkBadfilterFilter(c *Ctx, filter, twin *ssa.Function, kBad int64) {
 		}
 		ro := rangedOver(l)
 		cont := contCond(u, s, l)
-		rc := s.RC[cp.call.Block()]
+		rc := s.RCAt(cp.call)
 		want := u.bdd.And(cont, isBad(cp.elem))
 		full := ro != nil && ro.Full && s.Env[ro.Coll] == in0 && onlyExhaustionExit(l)
 		exact := u.bdd.And(rc, cont) == u.bdd.And(want, s.RC[l.Header])
